@@ -132,3 +132,108 @@ func cmpWithLen(info *types.Info, cond ast.Expr, xs string, s core.Path) (op tok
 	}
 	return 0, false, false
 }
+
+// lenIsZeroAtom: the condition, taken with the given outcome, establishes len(x) == 0 for some x
+// (len(x) == 0, len(x) < 1, len(x) <= 0 true; len(x) > 0, len(x) != 0, len(x) >= 1 false; mirrored forms).
+func lenIsZeroAtom(info *types.Info, cond ast.Expr, val bool) bool {
+	be, isB := ast.Unparen(cond).(*ast.BinaryExpr)
+	if !isB {
+		return false
+	}
+	op, x, y := be.Op, be.X, be.Y
+	isLenCall := func(e ast.Expr) bool {
+		call, ok := ast.Unparen(e).(*ast.CallExpr)
+		return ok && core.CalleeName(info, call) == "builtin.len" && len(call.Args) == 1
+	}
+	if isLenCall(y) {
+		x, y = y, x
+		switch op {
+		case token.LSS:
+			op = token.GTR
+		case token.GTR:
+			op = token.LSS
+		case token.LEQ:
+			op = token.GEQ
+		case token.GEQ:
+			op = token.LEQ
+		}
+	}
+	if !isLenCall(x) {
+		return false
+	}
+	k, isK := core.ConstInt(info, y)
+	if !isK {
+		return false
+	}
+	switch {
+	case op == token.EQL && k == 0, op == token.LSS && k == 1, op == token.LEQ && k == 0:
+		return val
+	case op == token.NEQ && k == 0, op == token.GTR && k == 0, op == token.GEQ && k == 1:
+		return !val
+	}
+	return false
+}
+
+// linearForm reads e as a sum of local variables with integer coefficients plus a constant
+// (identifiers, integer literals, +, -, parentheses, integer conversions); ok=false for anything else.
+func linearForm(info *types.Info, e ast.Expr) (terms map[types.Object]int64, k int64, ok bool) {
+	terms = map[types.Object]int64{}
+	var walk func(e ast.Expr, sign int64) bool
+	walk = func(e ast.Expr, sign int64) bool {
+		e = ast.Unparen(e)
+		if v, isC := core.ConstInt(info, e); isC {
+			k += sign * v
+			return true
+		}
+		switch x := e.(type) {
+		case *ast.Ident:
+			if o, isV := info.ObjectOf(x).(*types.Var); isV && !o.IsField() {
+				terms[o] += sign
+				return true
+			}
+		case *ast.UnaryExpr:
+			if x.Op == token.SUB {
+				return walk(x.X, -sign)
+			}
+			if x.Op == token.ADD {
+				return walk(x.X, sign)
+			}
+		case *ast.BinaryExpr:
+			switch x.Op {
+			case token.ADD:
+				return walk(x.X, sign) && walk(x.Y, sign)
+			case token.SUB:
+				return walk(x.X, sign) && walk(x.Y, -sign)
+			}
+		case *ast.CallExpr:
+			if len(x.Args) == 1 && info.Types[x.Fun].IsType() {
+				return walk(x.Args[0], sign)
+			}
+		}
+		return false
+	}
+	ok = walk(e, 1)
+	for o, n := range terms {
+		if n == 0 {
+			delete(terms, o)
+		}
+	}
+	return terms, k, ok
+}
+
+// lenZeroOfField: the condition, taken with the given outcome, establishes len(x.f) == 0; returns f.
+func lenZeroOfField(info *types.Info, cond ast.Expr, val bool) *types.Var {
+	if !lenIsZeroAtom(info, cond, val) {
+		return nil
+	}
+	be := ast.Unparen(cond).(*ast.BinaryExpr)
+	if f := lenOfField(info, be.X); f != nil {
+		return f
+	}
+	return lenOfField(info, be.Y)
+}
+
+// lenNonZeroOfField: the condition, taken with the given outcome, establishes len(x.f) != 0; returns f.
+func lenNonZeroOfField(info *types.Info, cond ast.Expr, val bool) *types.Var {
+	return lenZeroOfField(info, cond, !val)
+}
